@@ -28,6 +28,8 @@ enum Op {
     BinaryOp { name: &'static str, value: &'static str },
     /// the same failing host call many times
     Repeat { name: &'static str, function: &'static str, times: usize },
+    /// `l[0] = 99` on the exported list through KotoVm::run_write_op (completed effect: the assignment)
+    HostIndexAssign,
 }
 
 impl Op {
@@ -39,6 +41,7 @@ impl Op {
             Op::Display { name, .. } => format!("display:{name}"),
             Op::BinaryOp { name, .. } => format!("binop:{name}"),
             Op::Repeat { name, times, .. } => format!("repeat{times}:{name}"),
+            Op::HostIndexAssign => "host:index-assign".into(),
         }
     }
 }
@@ -109,6 +112,7 @@ fn alphabet(tier: Tier) -> Vec<Op> {
         Op::Display { name: "bad-display", value: "bad" },
         Op::Display { name: "plain", value: "l" },
         Op::BinaryOp { name: "bad-add", value: "bad" },
+        Op::HostIndexAssign,
         Op::Repeat { name: "f_throw", function: "f_throw", times: 100 },
         Op::Repeat { name: "f_ok-wrong-arity", function: "f_ok", times: 100 },
     ];
@@ -193,6 +197,17 @@ fn apply(inst: &mut Instance, op: &Op, reference: bool) -> String {
             }
             obs.outcome.class().to_string()
         }
+        Op::HostIndexAssign if reference => {
+            let o = inst.run_with("l[0] = 99\n", &cfg_for(false, false));
+            o.outcome.class().to_string()
+        }
+        Op::HostIndexAssign => crate::run::guarded(|| match inst.koto.exports().get("l") {
+            Some(l) => match inst.koto.verif_vm().run_write_op(koto::runtime::WriteOp::IndexAssign, l, KValue::Number(0.into()), KValue::Number(99.into())) {
+                Ok(_) => "ok".to_string(),
+                Err(_) => "error".to_string(),
+            },
+            None => "missing".into(),
+        }),
         // host calls have no completed effects: the reference performs nothing
         _ if reference => "skip".into(),
         Op::Call { function, args, .. } => call_exported(inst, function, *args),
